@@ -36,7 +36,10 @@ REQ_LETTERS = REQ_LETTERS + BADVAL_LETTERS
 LETTERS = EXH_LETTERS + BADVAL_LETTERS
 STARTS = ["in-ready", "in-connected", "out-await-cea", "out-ready", "in-waiting-dwa", "in-disconnecting",
           "in-ready-same-peer"]     # the last: every connection of the case belongs to one and the same peer
-BEHAVIOURS = ["answer", "defer", "raise", "threading-answer", "threading-raise", "threading-none", "answer_norc"]
+# "mixed": requests of the first peer are put aside by the application (answered later, letter SUB), those of every other
+# peer make the handler fail (the node answers 5012); and all connections count their identifiers from the same
+# start, so that equal hop-by-hop / end-to-end pairs are in flight on several connections
+BEHAVIOURS = ["answer", "defer", "raise", "threading-answer", "threading-raise", "threading-none", "answer_norc", "mixed"]
 
 
 _OTHER = []
@@ -75,7 +78,9 @@ class Conn:
         self.unanswered = []   # requests the peer wrote: (code, app, hbh, e2e, letter)
         self.answered = []     # ... and those the node has answered since
         self.seen = 0
-        self.hbh = 1000 * (idx + 1)
+        # (not when all connections belong to one peer: there every request would be put aside, and equal pairs
+        # pending on two connections at once are C09's known finding)
+        self.hbh = 1000 if case.behaviour == "mixed" and not case.start.endswith("same-peer") else 1000 * (idx + 1)
 
     def next_ids(self):
         self.hbh += 1
@@ -88,8 +93,13 @@ class Case:
         from vf.simnet import msgs as M
         self.M, self.REALM = M, REALM
         self.run, self.start, self.behaviour, self.script = run, start, behaviour, script
+        self.conns = []
         kind = "threading" if behaviour.startswith("threading") else "basic"
         beh = behaviour.split("-")[-1]
+        if behaviour == "mixed":
+            def beh(m):
+                oh = getattr(m, "origin_host", b"") or b""
+                return "defer" if bytes(oh).lower().startswith(b"peer1.") else "raise"
         out = start.startswith("out")
         peers = []
         same = start.endswith("same-peer")
@@ -433,6 +443,8 @@ DIRECTED = [
     ("out-ready", "answer", ["REQ", "ANS~Trep", "DWR", "DWA~Trep", "CEA~T", "ANSerr~Trep"]),
     ("in-waiting-dwa", "threading-answer", ["REQ", "ANS~Trep", "DWA~T", "DWR", "DWA~TErep"]),
     ("in-ready", "answer", ["REQ", "REQ~Trep", "DWR~T", "DWR~Trep", "REQmiss~T", "REQcmd~TP", "DPR~Trep"]),
+    ("in-ready", "mixed", [(0, "REQ"), (1, "REQ"), (0, "SUB"), (1, "DWR"), (0, "REQ"), (1, "REQ"), (1, "REQ"), (0, "SUB")]),
+    ("in-ready", "mixed", [(1, "REQ"), (0, "REQ"), (0, "SUB"), (0, "SUB2"), (1, "REQ")]),
 ]
 
 
